@@ -1224,6 +1224,11 @@ pub struct ScriptInner {
     pub ended: bool,
     pub waker: Option<Waker>,
     pub polls: usize,
+    /// register the waker on every poll, even one that yields an item or the end of the stream (streams may)
+    pub eager_waker: bool,
+    /// polls that happened after the stream had returned None (not allowed for non-fused streams)
+    pub polls_after_end: usize,
+    returned_end: bool,
 }
 
 pub struct ScriptedStream {
@@ -1238,7 +1243,7 @@ pub struct StreamCtl {
 }
 
 pub fn scripted_stream(preloaded: &[u32]) -> (ScriptedStream, StreamCtl) {
-    let inner = Arc::new(StdMutex::new(ScriptInner { items: preloaded.iter().cloned().collect(), ended: false, waker: None, polls: 0 }));
+    let inner = Arc::new(StdMutex::new(ScriptInner { items: preloaded.iter().cloned().collect(), ended: false, waker: None, polls: 0, eager_waker: false, polls_after_end: 0, returned_end: false }));
     let drops = Arc::new(AtomicUsize::new(0));
     (ScriptedStream { inner: inner.clone(), drops: drops.clone() }, StreamCtl { inner, drops })
 }
@@ -1255,9 +1260,16 @@ impl futures::Stream for ScriptedStream {
         vthread::yield_now();
         let mut g = self.inner.lock().unwrap();
         g.polls += 1;
+        if g.returned_end {
+            g.polls_after_end += 1;
+        }
+        if g.eager_waker {
+            g.waker = Some(cx.waker().clone());
+        }
         if let Some(i) = g.items.pop_front() {
             Poll::Ready(Some(i))
         } else if g.ended {
+            g.returned_end = true;
             Poll::Ready(None)
         } else {
             g.waker = Some(cx.waker().clone());
@@ -1307,6 +1319,21 @@ impl StreamCtl {
     }
     pub fn stream_drops(&self) -> usize {
         self.drops.load(AO::SeqCst)
+    }
+    pub fn set_eager_waker(&self) {
+        self.inner.lock().unwrap().eager_waker = true;
+    }
+    /// a late or spurious wake-up of whatever waker the stream still holds
+    pub fn spurious_wake(&self) {
+        vthread::yield_now();
+        let w = { self.inner.lock().unwrap().waker.take() };
+        if let Some(w) = w {
+            vthread::yield_now();
+            w.wake();
+        }
+    }
+    pub fn polls_after_end(&self) -> usize {
+        self.inner.lock().unwrap().polls_after_end
     }
     pub fn waker_registered(&self) -> bool {
         self.inner.lock().unwrap().waker.is_some()
